@@ -67,7 +67,7 @@ CHECKS = {
    design="§4 C09"),
  "C10": dict(
    text="Bounded model checking of the proxy path on the real code under the engine's cooperative goroutine model: one gRPC call through the REAL RegisterConn + createConnHandler (its pump goroutine and reply loop) + serveGRPC for each of the four streaming shapes, against a scripted backend (0..2 replies, final status OK / NotFound / Canceled / Unavailable, failing before, during or after the stream, reading the request stream first, last or never) and a client that sends 0..2 messages and either ends its stream or keeps it open; the backend must receive exactly the client's messages and metadata, the client exactly the backend's replies in order followed by its final status, and the call must complete (deadlocks are found by the scheduler). grpc-go's client transport is replaced by an in-memory stream under the engine; every replay runs the same scripted backend behind a real in-process grpc.Server, so the model is compared with real grpc-go on every run.",
-   note="Partial claim. Trusted: go/ssa semantics, engine semantics incl. the goroutine model, z3, the in-memory stream model (documented assumptions in the evidence file). One defect found this way was repaired (missing CloseSend, F-D35), two are listed as known findings (F-D36 hang when the backend ends first while the client keeps its stream open; F-D37 empty client streams are answered Unknown 'EOF' without calling the backend) and are reported as KNOWN-FINDING lines. Outside: status details, backend headers / trailers, proxied calls over the HTTP-transcoding, gRPC-web and WebSocket front ends, more than 2 messages per direction, flow control, deadline / cancellation propagation, schedules beyond the context bound.",
+   note="Partial claim. Trusted: go/ssa semantics, engine semantics incl. the goroutine model, z3, the in-memory stream model (documented assumptions in the evidence file). Two defects found this way were repaired (missing CloseSend, F-D35; empty client streams answered Unknown 'EOF' without calling the backend, F-D37), one is listed as a known finding (F-D36: hang when the backend ends first while the client keeps its stream open) and is reported as a KNOWN-FINDING line. Outside: status details, backend headers / trailers, proxied calls over the HTTP-transcoding, gRPC-web and WebSocket front ends, more than 2 messages per direction, flow control, deadline / cancellation propagation, schedules beyond the context bound.",
    design="§10.8"),
  "C11": dict(
    text="Bounded model checking of the registration state machine through the real code: NewMux, registerService, RegisterConn's body (clone, addConnHandler with a fake reflection conversation, storeState), DropConn, removeHandler, delRule, pickMethodHandler and match are executed for every history of register / drop operations up to the bound, and after every step the published state is compared with a reference model mapping each method to its number of live backends (counts, dropped handlers gone, handler pick succeeds iff a backend is live, the HTTP route of every live method still dispatches, documented return values).",
